@@ -42,6 +42,10 @@ pub struct Cfg {
     pub al: u8,
     #[serde(default)]
     pub n: u16,
+    /// 0 = buffer source; 1..3 = stream source handed over after one byte / in the middle / at its end
+    /// (4 = at its start), without the MD5 pass when md5 is off
+    #[serde(default)]
+    pub stream: u8,
 }
 
 impl Cfg {
@@ -56,6 +60,10 @@ impl Cfg {
         o.text = self.cenc != 0 && !self.incompressible;
         o.inband_cenc = self.inband_cenc;
         o.md5 = self.md5;
+        if self.stream != 0 {
+            o.source = Source::Stream(3);
+            o.stream_start = self.stream % 4;
+        }
         if self.carousel {
             o.carousel = Some(Carousel::Delay(500));
         }
@@ -262,7 +270,7 @@ fn run_corrupt_expect(p: &Prepared, seq: &[usize], c: &Corrupt, g: &mut G) -> Op
 }
 
 fn configs(thorough: bool) -> Vec<Cfg> {
-    let c = |scheme, e, b, parity, len, cenc, inband_fti, count, carousel, interleave| Cfg { scheme, e, b, parity, len, cenc, inband_fti, count, carousel, interleave, inband_cenc: inband_fti, md5: true, incompressible: false, sess_like: false, second: 0, al: 0, n: 0 };
+    let c = |scheme, e, b, parity, len, cenc, inband_fti, count, carousel, interleave| Cfg { scheme, e, b, parity, len, cenc, inband_fti, count, carousel, interleave, inband_cenc: inband_fti, md5: true, incompressible: false, sess_like: false, second: 0, al: 0, n: 0, stream: 0 };
     let mut v = vec![
         c(Scheme::NoCode, 4, 2, 0, 11, 0, true, 1, false, 1),
         c(Scheme::NoCode, 4, 2, 0, 11, 0, false, 1, false, 1),
@@ -324,6 +332,20 @@ fn configs(thorough: bool) -> Vec<Cfg> {
                     let mut x = c(scheme, e, b, parity, len, 0, inband_fti, 1, false, 1);
                     x.md5 = md5;
                     x.second = second;
+                    v.push(x);
+                }
+            }
+        }
+    }
+    // stream sources handed over at another position than their start, transferred twice (packets of the two
+    // transfers are then mixed by the orderings): with and without MD5
+    for (scheme, e, b, parity, len) in [(Scheme::NoCode, 4u16, 2u16, 0u16, 11usize), (Scheme::Rs28, 4, 2, 1, 7)] {
+        for stream in 1..=4u8 {
+            for md5 in [false, true] {
+                for (count, carousel) in [(2u32, false), (1, true)] {
+                    let mut x = c(scheme, e, b, parity, len, 0, true, count, carousel, 1);
+                    x.md5 = md5;
+                    x.stream = stream;
                     v.push(x);
                 }
             }
